@@ -90,6 +90,13 @@ func init() {
 	Inputs["veh3"] = feed(1700000000, vp("v2", "", "", "t2"), vp("V1", "", "", ""), vp("v3", "", "", "t3"), vp("", "l2", "", ""),
 		vp("", "L1", "", "t4"), vp("", "l3", "", ""), vp("", "", "p2", ""), vp("", "", "P1", ""), vp("v2", "lbl", "", ""),
 		&gtfsrt.FeedEntity{Id: sp("noid"), Vehicle: &gtfsrt.VehiclePosition{StopId: sp("S9"), Trip: &gtfsrt.TripDescriptor{TripId: sp("t9")}}})
+	tuv := func(trip, veh string) *gtfsrt.FeedEntity {
+		return &gtfsrt.FeedEntity{Id: sp("tu-" + trip + veh), TripUpdate: &gtfsrt.TripUpdate{Trip: &gtfsrt.TripDescriptor{TripId: sp(trip)}, Vehicle: &gtfsrt.VehicleDescriptor{Id: sp(veh)},
+			StopTimeUpdate: []*gtfsrt.TripUpdate_StopTimeUpdate{{StopId: sp("S-" + trip + veh)}}}}
+	}
+	// conflicting duplicates: several trips naming one vehicle, one trip naming several vehicles, a trip and a vehicle described twice
+	Inputs["conflict"] = feed(1700000000, tuv("tA", "v9"), tuv("tB", "v9"), tuv("tC", "v9"), tuv("tD", "v9"), tuv("tE", "v1"), tuv("tE", "v2"), tuv("tE", "v3"),
+		vp("v9", "", "", "tZ"), vp("v9", "other", "", "tY"), vp("v9", "", "", "tX"), vp("v1", "", "", "tA"), vp("v2", "", "", "tA"), vp("v3", "", "", "tA"))
 	rt := func(r string, dir int) *gtfsrt.EntitySelector {
 		td := &gtfsrt.TripDescriptor{RouteId: sp(r)}
 		if dir >= 0 {
@@ -138,6 +145,15 @@ func init() {
 		"calendar.txt":   cal + "d1,1,0,0,0,0,0,0,20240101,20240201\nd3,0,0,1,0,0,0,0,20240101,20240201\nd2,0,1,0,0,0,0,0,20240101,20240201\n",
 		"trips.txt":      "route_id,service_id,trip_id\nq,d2,k1\nq,d1,k2\n",
 		"stop_times.txt": "trip_id,stop_id,stop_sequence,arrival_time,departure_time\nk1,c1,1,1:00:00,\nk2,c2,1,,2:00:00\nk1,c2,2,1:10:00,1:11:00\n",
+	}
+	// agency.txt and other files lacking several required columns (file-level warnings / empty tables)
+	StaticFiles["static-missingcols"] = map[string]string{
+		"agency.txt":     "agency_id,agency_lang\na,en\n",
+		"routes.txt":     "route_short_name\nx\n",
+		"stops.txt":      "stop_name\nx\n",
+		"trips.txt":      "trip_headsign\nx\n",
+		"stop_times.txt": "stop_headsign\nx\n",
+		"calendar.txt":   "service_id\nx\n",
 	}
 	for name, files := range StaticFiles {
 		Inputs[name] = ZipOf(files)
